@@ -208,6 +208,7 @@ func SignHashed(rand io.Reader, priv, e []byte) (r, s []byte, err error) {
 		var d1, d1Inv fiat.SM2ScalarElement
 
 		x := kG.GetAffineX_Unsafe() // 避免计算y坐标，可以节约计算量。由于x不需要保密，可以使用快速版本，但z的数值会泄露信息吗？TODO
+		x = verifX1(x) // verification hook: identity unless built with -tags verif
 
 		eInt.SetBytes(e)
 		rInt.Add(x, &eInt)
